@@ -337,3 +337,57 @@ Theorem C17_while_loops_end : forall s base ns num,
   find_num s base ns (S (length (p2n s))) num <> NLoop /\ find_ns s (S (length (p2n s))) num <> None.
 Proof. intros. split; [apply find_num_noloop|apply find_ns_some]. Qed.
 Print Assumptions C17_while_loops_end.
+
+(* ---------------------------------------------------------------- *)
+(* Parsing Turtle (N3, TriG) with several @prefix / PREFIX directives (model: operation
+   [OParse decls] = TurtleParser.parse's  for prefix, namespace in p._bindings.items():
+   graph.bind(prefix, namespace)). *)
+From RV Require Import Namespace.Parse.
+
+(* p._bindings: a prefix declared again takes the namespace of the last directive *)
+Theorem C17_parse_directives : forall decls p n,
+  dget (eff_decls (decls ++ [(p, n)])) p = Some n /\
+  forall p', p' <> p -> dget (eff_decls (decls ++ [(p, n)])) p' = dget (eff_decls decls) p'.
+Proof.
+  intros decls p n. unfold eff_decls. rewrite fold_left_app. cbn [fold_left fst snd]. split.
+  - rewrite dget_dset. now rewrite str_eqb_refl.
+  - intros p' H. rewrite dget_dset. destruct (str_eqb_spec p' p); [congruence|reflexivity].
+Qed.
+Print Assumptions C17_parse_directives.
+
+(* After such a parse, in any reachable state and for directives with space-free prefixes and
+   non-empty namespaces: the parse does not raise, the store is still a bijection, and every
+   declared namespace n has a prefix; the LAST directive (p, n) for that namespace decides which:
+   p itself, unless p was in use for another namespace when its turn came (then bind takes the
+   numbered p1, p2, ... as always).  A later directive for another namespace never takes it away;
+   a later directive for the SAME namespace re-points it (that is the hypothesis on l2). *)
+Theorem C17_parse_binds : forall split split_s ncname ops decls l1 p n l2,
+  let s := m_final split split_s ncname m_init ops in
+  eff_decls decls = l1 ++ (p, n) :: l2 ->
+  Forall decl_ok (eff_decls decls) ->
+  (forall e, In e l2 -> snd e <> n) ->
+  let r := m_step split split_s ncname s (OParse decls) in
+  snd r = RUnit /\ bij (fst r) /\
+  exists q, dget (n2p (fst r)) n = Some q /\ dget (p2n (fst r)) q = Some n /\
+            (taken (fst (m_binds s l1)) p n = false -> q = p).
+Proof.
+  intros split split_s ncname ops decls l1 p n l2 s E Hd Hne. cbn [m_step]. rewrite E in *.
+  assert (Hg : good split split_s true s) by (apply m_final_good; [reflexivity|apply good_init]).
+  destruct (m_binds_result split split_s l1 p n l2 s Hg Hd Hne) as (Ok & B & q & H1 & H2 & H3).
+  cbn [fst snd]. rewrite Ok. split; [reflexivity|]. split; [exact B|]. exists q. auto.
+Qed.
+Print Assumptions C17_parse_binds.
+
+(* the two single-bind facts it is proved from *)
+Theorem C17_bind_binds : forall split split_s s p n,
+  good split split_s true s -> has_space p = false ->
+  snd (m_bind s (Some p) n true false) = None /\
+  exists q, dget (n2p (fst (m_bind s (Some p) n true false))) n = Some q /\ (taken s p n = false -> q = p).
+Proof. intros split split_s s p n. apply m_bind_binds. Qed.
+Print Assumptions C17_bind_binds.
+
+Theorem C17_bind_keeps : forall split split_s s p n n0 q,
+  good split split_s true s -> has_space p = false -> n0 <> n -> truthy n0 = true ->
+  dget (n2p s) n0 = Some q -> dget (n2p (fst (m_bind s (Some p) n true false))) n0 = Some q.
+Proof. intros split split_s s p n n0 q. apply m_bind_keeps. Qed.
+Print Assumptions C17_bind_keeps.
